@@ -2208,6 +2208,114 @@ def _stacks_to_saved_attributes(work: Repo) -> int:
     return count
 
 
+def _finditer_rebuild_to_sub(fn) -> int:
+    """acc = []; last = 0
+       for m in P.finditer(t):
+           acc.append(t[last:m.start()]); <compute one replacement piece, appended to acc>; last = m.end()
+       acc.append(t[last:]); return "".join(acc)
+    ->   def __cb(m): <the same computation, returning the piece>;   return P.sub(__cb, t)
+    Rebuilding the text around the non-overlapping matches of a pattern, one replacement piece per match, is what
+    Pattern.sub does with a callback; the callback is the middle of the loop body with `acc.append(E)` read as `return E`."""
+    if isinstance(fn, ast.Lambda):
+        return 0
+    body = fn.body
+    done = 0
+    for i, loop in enumerate(list(body)):
+        if not (isinstance(loop, ast.For) and isinstance(loop.target, ast.Name) and isinstance(loop.iter, ast.Call) and isinstance(loop.iter.func, ast.Attribute)
+                and loop.iter.func.attr == "finditer" and len(loop.iter.args) == 1 and isinstance(loop.iter.args[0], ast.Name) and not loop.orelse and len(loop.body) >= 3):
+            continue
+        m, t, pat = loop.target.id, loop.iter.args[0].id, loop.iter.func.value
+        first, last_st, mid = loop.body[0], loop.body[-1], loop.body[1:-1]
+        # first: acc.append(t[last:m.start()])
+        if not (isinstance(first, ast.Expr) and isinstance(first.value, ast.Call) and isinstance(first.value.func, ast.Attribute) and first.value.func.attr == "append"
+                and isinstance(first.value.func.value, ast.Name) and len(first.value.args) == 1):
+            continue
+        acc = first.value.func.value.id
+        sl = first.value.args[0]
+        if not (isinstance(sl, ast.Subscript) and isinstance(sl.value, ast.Name) and sl.value.id == t and isinstance(sl.slice, ast.Slice) and isinstance(sl.slice.lower, ast.Name)
+                and sl.slice.step is None and ast.unparse(sl.slice.upper or ast.Constant(value=None)) == f"{m}.start()"):
+            continue
+        last = sl.slice.lower.id
+        if not (isinstance(last_st, ast.Assign) and len(last_st.targets) == 1 and isinstance(last_st.targets[0], ast.Name) and last_st.targets[0].id == last
+                and ast.unparse(last_st.value) == f"{m}.end()"):
+            continue
+        # after the loop: acc.append(t[last:]); return "".join(acc)
+        if i + 2 >= len(body) + 0 and not (i + 2 < len(body)):
+            continue
+        tail1, tail2 = body[i + 1], body[i + 2]
+        if not (isinstance(tail1, ast.Expr) and ast.unparse(tail1.value) == f"{acc}.append({t}[{last}:])" and isinstance(tail2, ast.Return)
+                and tail2.value is not None and ast.unparse(tail2.value) in (f"''.join({acc})", f'"".join({acc})')):
+            continue
+        # before: acc = [] and last = 0, nothing else touching them
+        inits = [st for st in body[:i] if isinstance(st, ast.Assign) and len(st.targets) == 1 and isinstance(st.targets[0], ast.Name) and st.targets[0].id in (acc, last)]
+        if len(inits) != 2 or not any(isinstance(st.value, ast.List) and not st.value.elts for st in inits) \
+                or not any(isinstance(st.value, ast.Constant) and st.value.value == 0 for st in inits):
+            continue
+        mentions = [x for x in ast.walk(fn) if isinstance(x, ast.Name) and x.id in (acc, last)]
+        allowed = {id(x) for st in inits + [first, last_st, tail1, tail2] for x in ast.walk(st)}
+        mid_appends = []
+        ok = True
+        for x in mentions:
+            if id(x) in allowed:
+                continue
+            a = parent_of(fn, x)
+            c = parent_of(fn, a) if isinstance(a, ast.Attribute) else None
+            e = parent_of(fn, c) if isinstance(c, ast.Call) else None
+            if x.id == acc and isinstance(a, ast.Attribute) and a.attr == "append" and isinstance(c, ast.Call) and len(c.args) == 1 and isinstance(e, ast.Expr) \
+                    and any(e is y for st in mid for y in ast.walk(st)):
+                mid_appends.append((e, c))
+            else:
+                ok = False
+        if not ok or not mid_appends:
+            continue
+        if any(isinstance(y, (ast.Return, ast.Yield, ast.YieldFrom, ast.Continue)) for st in mid for y in ast.walk(st)):
+            continue
+        # the callback: the middle statements, every append a return (a `break` right after it goes with it)
+        new_mid = [clone(st) for st in mid]
+        holder = ast.Module(body=new_mid, type_ignores=[])
+
+        class _Ret(ast.NodeTransformer):
+            def _fix(self, lst):
+                out = []
+                skip = False
+                for st in lst:
+                    if skip and isinstance(st, ast.Break):
+                        skip = False
+                        continue
+                    skip = False
+                    if isinstance(st, ast.Expr) and isinstance(st.value, ast.Call) and isinstance(st.value.func, ast.Attribute) and st.value.func.attr == "append" \
+                            and isinstance(st.value.func.value, ast.Name) and st.value.func.value.id == acc:
+                        out.append(ast.copy_location(ast.Return(value=st.value.args[0]), st))
+                        skip = True
+                        continue
+                    out.append(self.visit(st))
+                return out
+
+            def generic_visit(self, node):
+                for fld in ("body", "orelse", "finalbody"):
+                    lst = getattr(node, fld, None)
+                    if isinstance(lst, list) and lst and isinstance(lst[0], ast.stmt):
+                        setattr(node, fld, self._fix(lst))
+                return node
+
+        _Ret().generic_visit(holder)
+        cb_name = f"__cb{getattr(loop, 'lineno', 0)}"
+        cb = ast.FunctionDef(name=cb_name, args=ast.arguments(posonlyargs=[], args=[ast.arg(arg=m)], kwonlyargs=[], kw_defaults=[], defaults=[]),
+                             body=holder.body, decorator_list=[], returns=None, type_comment=None)
+        if hasattr(fn, "type_params"):
+            cb.type_params = []
+        ret = ast.Return(value=ast.Call(func=ast.Attribute(value=clone(pat), attr="sub", ctx=ast.Load()),
+                                        args=[ast.Name(id=cb_name, ctx=ast.Load()), ast.Name(id=t, ctx=ast.Load())], keywords=[]))
+        for n_ in (cb, ret):
+            ast.copy_location(n_, loop)
+        new_body = [st for st in body[:i] if st not in inits] + [cb, ret] + body[i + 3:]
+        fn.body = new_body
+        ast.fix_missing_locations(fn)
+        done += 1
+        break
+    return done
+
+
 def _scalar_replace_records(repo: Repo, mod, fn) -> int:
     """fmt = _Opts(width=w, semantic=s) ... fmt.width ... fmt.semantic      ->   fmt__width = w; fmt__semantic = s ... fmt__width ...
     for a local that is bound once to a freshly built record of the package (dataclass / NamedTuple without custom
@@ -2399,6 +2507,7 @@ def build_inlined_repo(root=None, keep: set[str] | None = None) -> tuple[Repo, d
                     _propagate_attr_and_thunk_temps(fn_node)
                     _list_then_yield_from(fn_node)
                     _filter_loops_to_comprehension(fn_node)
+                    _finditer_rebuild_to_sub(fn_node)
                     got = _scalar_replace_records(work, mod, fn_node)
                     sra += got
                     if not got:
